@@ -5,13 +5,18 @@
    networkx graph (RNx), payloads + edge list + to_rx_id_map of the rustworkx graph (RRx), or the
    SgGraphAdapter view plus the dtype signature of the spatial-graph object (RSg). *)
 From Geff Require Export Base Dtype Vlen Tree Validate Write Read Dicts Backends.
+From Geff Require Export BackendsMd.
 Open Scope list_scope.
 
 Inductive writer :=
 | WNx (directed : bool) (g : dgraph) (axes : option (list string))
 | WRx (directed : bool) (g : dgraph) (idmap : option (list (Z * Z))) (axes : option (list string))
 | WSg (g : sgc) (md : option smeta) (axes : option (list string))
-| WMem (g : mgraph).
+| WMem (g : mgraph)
+(* networkx / rustworkx writes with a caller GeffMetadata and / or axis_names + axis_units / axis_types / axis_scales / scaled_units /
+   axis_offset (BackendsMd.v): every axis comes with the token of its entry in those lists *)
+| WNxMd (directed : bool) (g : dgraph) (md : option smeta) (axes : option (list (string * Z)))
+| WRxMd (directed : bool) (g : dgraph) (idmap : option (list (Z * Z))) (md : option smeta) (axes : option (list (string * Z))).
 Inductive reader := RMem | RNx | RRx | RSg (pos : string).
 Inductive input := ICase (w : writer) (r : reader) (mdtok axtok : Z).
 
@@ -34,6 +39,8 @@ Definition written (w : writer) (mdtok axtok : Z) : res mgraph :=
                | WRx d g idmap axes => rx_write KObj d g idmap axes mdtok axtok
                | WSg g md axes => sg_write KObj g md axes mdtok axtok
                | WMem _ => ret tt
+               | WNxMd d g md axes => nx_write_md KObj d g md axes mdtok
+               | WRxMd d g idmap md axes => rx_write_md KObj d g idmap md axes mdtok
                end in
       let (post, r) := run (api_write KObj m) None in
       match r with
